@@ -257,6 +257,8 @@ def run(case):
         return violated("target unreadable after ra[%s] = %s: %r" % (short(idx), short(value), after), tags)
     after = after.value
     nontrivial = len(lens) >= 2 and (ncell >= 1 or must_refuse)
+    if must_refuse and recv == "unsafe":
+        return undefined("refusals are switched off for this receiver (safe_mode=False)", tags)
     if must_refuse:
         CTX.tick("c03:must-refuse")
         if out.ok:
